@@ -10,6 +10,7 @@ import (
 	"fmt"
 	"os"
 	"os/exec"
+	"runtime/debug"
 	"sort"
 	"strconv"
 	"strings"
@@ -112,6 +113,9 @@ func (p *Prop) Execute(c *sim.Case, env *sim.Env) *sim.Result {
 	var sp Spec
 	c.GetSpec(&sp)
 	res := &sim.Result{Status: "ok"}
+	// each run has a process of its own and is short: without garbage collections the
+	// runtime never empties sync.Pools at a moment the simulator does not control
+	debug.SetGCPercent(-1)
 	// materialise the documents this case uses
 	paths := map[int]string{}
 	datas := map[int][]byte{}
